@@ -83,16 +83,18 @@ function of the parameters alone; and they honour the *settings* the memoised va
     `covar_cache` / `fantasy_covar_cache` of the interpolated strategy (the `(inside_root, None)` / `(None, root)` pair),
   * every read of such an entry, under every settings cell, re-validates it (pops and recomputes the entry when it
     holds the other representation),
-  * any other setting a memoised body tests is `detach_test_caches` (graph only) or `fast_pred_var` (which solver
-    produces the same matrix; number of probe vectors). -/
+  * any other setting a memoised body tests is `detach_test_caches` (graph only), `fast_pred_var` (which solver
+    produces the same matrix; number of probe vectors), or `observation_nan_policy` in a `mean_cache` body whose memo
+    key contains its arguments (the policy is the argument: one entry per policy). -/
 theorem memo_keys_honour_arguments :
     table.memoKeyHonoursArgs = true ∧
     (∀ c ∈ table.classes, ∀ d ∈ c.cached, d.ignoreArgs = true → d.slot = sChol) ∧
     (∀ c ∈ table.classes, ∀ d ∈ c.cached,
         d.variantOn = (if c.id == cInterp && (d.slot == sCovar || d.slot == sFantCovar) then some gFastPredSamples else none)) ∧
-    (∀ cls ∈ strategyClasses, ∀ w nan, ∀ c ∈ Cell.all, ∀ op ∈ table.access cls w nan c, op.unrevalidated = false) ∧
+    (∀ cls ∈ strategyClasses, ∀ w, ∀ c ∈ Cell.all, ∀ op ∈ table.access cls w c, op.unrevalidated = false) ∧
     (∀ c ∈ table.classes, ∀ d ∈ c.cached, ∀ g ∈ d.bodySettings,
-        g = gDetach ∨ g = gFastPredVar ∨ d.variantOn = some g) := by decide +kernel
+        g = gDetach ∨ g = gFastPredVar ∨ d.variantOn = some g ∨
+        (g = gNanPolicy ∧ d.slot = sMean ∧ d.ignoreArgs = false)) := by decide +kernel
 
 /-- the default strategy reads `covar_cache` exactly under `fast_pred_var` without `skip_posterior_variances`
 (with `observation_nan_policy` at its default) -/
@@ -121,15 +123,15 @@ example : memoReads table cInterp .fastPredSamples = [sMean, sCovarS] ∧ memoRe
 call graph of the four prediction strategies (`exact_prediction → exact_predictive_mean / exact_predictive_covar →
 @cached names / pop_from_cache / super()`, with the settings guards on the way) equals the specification `accessModel`
 for every strategy class, for plain and WISKI (fantasy) strategies, default and non-default `observation_nan_policy`,
-and all 512 settings cells. -/
+and all 2048 settings cells (8 Boolean settings, the `degraded` marker, the three values of `observation_nan_policy`). -/
 theorem readCreate_generated_eq_model :
-    ∀ cls ∈ strategyClasses, ∀ w nan, ∀ c ∈ Cell.all, table.access cls w nan c = accessModel cls w nan c := by
+    ∀ cls ∈ strategyClasses, ∀ w, ∀ c ∈ Cell.all, table.access cls w c = accessModel cls w c := by
   decide +kernel
 
 /-- … stated for an arbitrary settings cell -/
-theorem readCreate_generated_eq_model_cell (cls : Nat) (hcls : cls ∈ strategyClasses) (w nan : Bool) (c : Cell) :
-    table.access cls w nan c = accessModel cls w nan c :=
-  readCreate_generated_eq_model cls hcls w nan c (Cell.mem_all c)
+theorem readCreate_generated_eq_model_cell (cls : Nat) (hcls : cls ∈ strategyClasses) (w : Bool) (c : Cell) :
+    table.access cls w c = accessModel cls w c :=
+  readCreate_generated_eq_model cls hcls w c (Cell.mem_all c)
 
 /-- what `get_fantasy_strategy` reads from the source strategy and which memo entries the new strategy is born with,
 derived from the source, equal the specification -/
@@ -141,6 +143,19 @@ theorem fantasy_readCreate_generated_eq_model :
 the entry, or compute it from the parameters and data and store it") -/
 theorem cached_bodies_read_no_memo :
     ∀ c ∈ table.classes, ∀ d ∈ c.cached, d.deps ≠ [] → d.slot = sFantMean ∨ d.slot = sFantCovar := by decide
+
+/-- **No ad-hoc instance caches.**  The prediction strategies and the variational strategies keep no state outside
+`_memoize_cache` that could outlive an invalidation point: no attribute assigned outside `__init__` is guarded by a
+test of itself (compute-if-absent), and the only one read on a path where it was not written in the same call is
+`_last_test_train_covar` (the operator handed to the `covar_cache` body, written by the same call that reads the cache). -/
+theorem no_adhoc_instance_caches :
+    ∀ a ∈ table.instAttrs, a.selfGuarded = false ∧ (a.readBeforeWrite = true → a.known = 1) := by decide
+
+/-- the `mean_cache` entry of the default / RFF / SGPR strategy is keyed on `observation_nan_policy` (one entry per
+policy), the interpolated strategy's is not -/
+example : memoReads table cDefault .nanPolicyMask = [sMeanMask] ∧ memoReads table cSGPR .nanPolicyFill = [sMeanFill, sCovar] ∧
+    memoReads table cInterp .nanPolicyMask = [sMean] ∧
+    memoReads table cDefault { fpv := true, nanMask := true } = [sMeanMask] := by decide
 
 /-- the constructors that turn a tensor argument into a parameter (`inducing_points` of the variational strategies
 and of `InducingPointKernel`) register a copy: two models built from the same tensor share no parameter storage -/
@@ -557,10 +572,10 @@ representation the other `fast_pred_samples` setting asks for) a KISS-GP model a
 that differ in `fast_pred_samples` from the representation built for the first — in both orders; with the generated
 table it re-computes the entry. -/
 theorem stale_representation_without_revalidation :
-    ((run { table with access := fun cls w nan c => (table.access cls w nan c).map MemoOp.dropRevalidation } (init .kiss)
+    ((run { table with access := fun cls w c => (table.access cls w c).map MemoOp.dropRevalidation } (init .kiss)
         [.eval, .predict .fastPredBoth, .predict .fastPredVar]).2.map (fun a => a.used.map (·.slot))) =
       [[sStrat, sMean, sCovarS, sKMat], [sStrat, sMean, sCovarS, sKMat]] ∧
-    ((run { table with access := fun cls w nan c => (table.access cls w nan c).map MemoOp.dropRevalidation } (init .kiss)
+    ((run { table with access := fun cls w c => (table.access cls w c).map MemoOp.dropRevalidation } (init .kiss)
         [.eval, .predict .fastPredVar, .predict .fastPredBoth]).2.map (fun a => a.used.map (·.slot))) =
       [[sStrat, sMean, sCovar, sKMat], [sStrat, sMean, sCovar, sKMat]] ∧
     ((run table (init .kiss)
